@@ -185,6 +185,12 @@ impl<K: HKey> Exec<K> {
             "cfg" => { for kv in &t[1..] { self.cfg.apply(kv); } return; }
             "obs" => { self.obs("O"); return; }
             "plant" | "mkdir" | "fault" => return,
+            "rmblob" => {
+                // a blob file disappears from the (closed) store: rmblob <content>
+                let hx = hex(blake3::hash(&parse_chunk(t[1])).as_bytes());
+                let _ = std::fs::remove_file(self.root.join("cas").join(&hx[0..2]).join(&hx[2..4]).join(&hx[4..]));
+                return;
+            }
             "setsettings" => {
                 // rewrite the settings file of a closed store: setsettings <version> <pre 0/1> <n>
                 let js = format!("{{\"version\":{},\"dir_tree_is_pre_created\":{},\"num_ops_per_wal\":{}}}", t[1], t[2] == "1", t[3]);
